@@ -41,6 +41,14 @@ pub open spec fn tv_same_shape<T>(a: TV<T>, b: TV<T>) -> bool { a.id == b.id && 
 /// a rehash/resize: same values, nothing known about where they are
 pub open spec fn tv_rehashed<T>(a: TV<T>, b: TV<T>) -> bool { a.elems == b.elems && a.items.len() == b.items.len() }
 
+/// every element is stored under the hash that `h` computes for it (what a later rehash / lookup relies on)
+pub open spec fn hashed_by<T, H: Fn(&T) -> u64>(tv: TV<T>, h: H) -> bool {
+    forall|i: int| tv.items.contains_key(i) ==> h.ensures((&#[trigger] tv.items[i],), tv.hashes[i])
+}
+/// every occupied bucket of `a` is an occupied bucket of `b` with the same element and the same stored hash
+pub open spec fn tv_sub<T>(a: TV<T>, b: TV<T>) -> bool {
+    forall|i: int| #[trigger] a.items.contains_key(i) ==> b.items.contains_key(i) && a.items[i] == b.items[i] && a.hashes[i] == b.hashes[i]
+}
 /// `e` answered false on every element of the table stored under `hash`
 pub open spec fn rejects_all<T, E: FnMut(&T) -> bool>(e: E, tv: TV<T>, hash: u64) -> bool {
     forall|i: int| tv.items.contains_key(i) && tv.hashes[i] == hash ==> e.ensures((&#[trigger] tv.items[i],), false)
@@ -151,6 +159,15 @@ impl<T> HbDrain<'_, T> {
     { unimplemented!() }
 }
 
+/// `a` is an element-wise clone of `b` (same buckets, same control bytes)
+pub uninterp spec fn clone_of<T>(a: TV<T>, b: TV<T>) -> bool;
+/// a hasher is assumed to agree on a value and its clone (lawful Hash/Clone), so a cloned table is hashed like its source
+#[verifier::external_body]
+pub proof fn axiom_clone_hashed<T, H: Fn(&T) -> u64>(a: TV<T>, b: TV<T>, h: H)
+    requires clone_of(a, b), hashed_by(b, h)
+    ensures hashed_by(a, h)
+{ }
+
 /// hashbrown's internal invariants, available for every table value (trusted)
 #[verifier::external_body]
 pub proof fn axiom_tv_inv<T>(t: HbTable<T>) ensures tv_inv(t@) { }
@@ -210,6 +227,7 @@ impl<T> HbTable<T> {
                 final(self)@.buckets <= old(self)@.buckets,
                 final(self)@.buckets == old(self)@.buckets ==> final(self)@ == old(self)@,
                 final(self)@.buckets != old(self)@.buckets ==> final(self)@.items.len() + final(self)@.growth_left >= min_size,
+                hashed_by(old(self)@, hasher) ==> hashed_by(final(self)@, hasher),
     { unimplemented!() }
     /// hashbrown 1173: no-op (and hasher unused) unless additional > growth_left
     #[verifier::external_body]
@@ -217,6 +235,7 @@ impl<T> HbTable<T> {
         requires additional > old(self)@.growth_left ==> forall|t: &T| hasher.requires((t,)), //@ dep.reserve.hasher C02,C17
         ensures additional <= old(self)@.growth_left ==> final(self)@ == old(self)@,
             final(self)@.growth_left >= additional, tv_rehashed(final(self)@, old(self)@), tv_inv(final(self)@),
+            hashed_by(old(self)@, hasher) ==> hashed_by(final(self)@, hasher),
     { unimplemented!() }
     #[verifier::external_body]
     pub fn try_reserve(&mut self, additional: usize, hasher: impl Fn(&T) -> u64) -> (r: Result<(), TryReserveError>)
@@ -224,6 +243,7 @@ impl<T> HbTable<T> {
         ensures additional <= old(self)@.growth_left ==> final(self)@ == old(self)@ && r.is_ok(),
             r.is_ok() ==> final(self)@.growth_left >= additional, tv_rehashed(final(self)@, old(self)@), tv_inv(final(self)@),
             r.is_err() ==> final(self)@ == old(self)@,
+            hashed_by(old(self)@, hasher) ==> hashed_by(final(self)@, hasher),
     { unimplemented!() }
     /// growing insert (hashbrown 1298): may rehash everything
     #[verifier::external_body]
@@ -231,6 +251,9 @@ impl<T> HbTable<T> {
         requires forall|t: &T| hasher.requires((t,)),
         ensures final(self)@.items.len() == old(self)@.items.len() + 1, final(self)@.elems == old(self)@.elems.insert(value),
                 tv_inv(final(self)@), r@.table == final(self)@.id, final(self)@.items.contains_key(r@.idx), final(self)@.items[r@.idx] == value,
+                final(self)@.hashes[r@.idx] == hash,
+                // elements that are rehashed are rehashed with `hasher`; the others keep their stored hash
+                hashed_by(old(self)@, hasher) && hasher.ensures((&value,), hash) ==> hashed_by(final(self)@, hasher),
     { unimplemented!() }
     /// hashbrown 1360: needs a free slot; `growth_left -= special_is_empty(old_ctrl)` must not underflow
     #[verifier::external_body]
@@ -302,13 +325,19 @@ impl<T> HbTable<T> {
 }
 impl<T: Clone> Clone for HbTable<T> {
     #[verifier::external_body]
-    fn clone(&self) -> (r: Self) ensures r@.items.len() == self@.items.len(), r@.growth_left == self@.growth_left, r@.buckets == self@.buckets, tv_inv(r@) { unimplemented!() }
+    fn clone(&self) -> (r: Self)
+        ensures r@.items.len() == self@.items.len(), r@.growth_left == self@.growth_left, r@.buckets == self@.buckets, tv_inv(r@),
+            // control bytes are copied: every clone sits where its original sat
+            r@.hashes == self@.hashes, r@.items.dom() == self@.items.dom(), clone_of(r@, self@),
+    { unimplemented!() }
 }
 impl<T: Clone> HbTable<T> {
     #[verifier::external_body]
     pub fn clone_from_with_hasher(&mut self, source: &Self, hasher: impl Fn(&T) -> u64)
         requires forall|t: &T| hasher.requires((t,)),
-        ensures final(self)@.items.len() == source@.items.len(), tv_inv(final(self)@)
+        ensures final(self)@.items.len() == source@.items.len(), tv_inv(final(self)@),
+            // either the control bytes are copied (the source's stored hashes) or every clone is re-inserted with `hasher`
+            hashed_by(source@, hasher) ==> hashed_by(final(self)@, hasher),
     { unimplemented!() }
 }
 
